@@ -329,16 +329,18 @@ Proof.
 Qed.
 
 (* ---------- + integer ---------- *)
-Theorem gf_add_int_guarded p a c : 0 < p -> wf p a -> guard_add_int a c = true ->
+Theorem gf_add_int_spec p a c : 0 < p -> wf p a ->
   wf p (gf_add_int p a c) /\ peqm p (gf_add_int p a c) (padd a [c]).
 Proof.
-  intros Hp Ha G. unfold gf_add_int. destruct a as [|x r].
-  - cbn in G. apply Z.eqb_eq in G. subst c. split; [apply wf_nil|].
-    cbn [padd]. symmetry. apply peqm_cons_nil; reflexivity.
-  - destruct (c =? 0) eqn:E.
-    + apply Z.eqb_eq in E. subst c. split; [exact Ha|].
-      apply peq_peqm. intros k. rewrite coef_padd. destruct k as [|[|k]]; cbn; lia.
-    + pose proof (Z.mod_pos_bound (x + c) p Hp) as Hb.
+  intros Hp Ha. unfold gf_add_int.
+  destruct (c =? 0) eqn:E.
+  { apply Z.eqb_eq in E. subst c. split; [exact Ha|].
+    apply peq_peqm. intros k. rewrite coef_padd.
+    destruct k as [|k]; rewrite ?coef_cons_O, ?coef_cons_S, ?coef_nil; lia. }
+  destruct a as [|x r].
+  - change (let c' := c mod p in if c' =? 0 then [] else [c']) with (gf_of_int c p).
+    split; [apply gf_of_int_wf; auto|]. cbn [padd]. apply gf_of_int_peqm; auto.
+  - pose proof (Z.mod_pos_bound (x + c) p Hp) as Hb.
       destruct r as [|y r].
       * cbn [padd]. split.
         -- apply istrip_wf. apply reduced_cons. split; [lia|apply reduced_nil].
@@ -470,7 +472,8 @@ Proof.
     apply peq_peqm. rewrite pshift_S.
     intros k. rewrite !coef_padd, !coef_pshift.
     destruct (k <? i)%nat eqn:A1.
-    + rewrite coef_cons. destruct k; lia.
+    + rewrite coef_cons. destruct k; [lia|]. rewrite coef_pshift. apply Nat.ltb_lt in A1.
+      assert (X : (k <? i)%nat = true) by (apply Nat.ltb_lt; lia). rewrite X. lia.
     + apply Nat.ltb_ge in A1. rewrite coef_padd.
       rewrite (coef_cons 0 (pshift i (pmul as_ b)) k).
       destruct k as [|k].
@@ -492,7 +495,7 @@ Theorem gf_mul_spec p a b : 0 < p -> wf p a -> wf p b -> computes p (gf_mul p a 
 Proof.
   intros Hp Ha Hb. unfold computes, gf_mul.
   destruct a as [|x a].
-  { exists []. repeat split; try apply wf_nil. }
+  { exists []. split; [reflexivity|]. split; [apply wf_nil|reflexivity]. }
   destruct b as [|y b].
   { exists []. split; [reflexivity|]. split; [apply wf_nil|]. rewrite pmul_nil_r. reflexivity. }
   remember (x :: a) as A. remember (y :: b) as B.
@@ -513,7 +516,7 @@ Theorem gf_mul_assign_spec p a b : 0 < p -> wf p a -> wf p b ->
 Proof.
   intros Hp Ha Hb. unfold gf_mul_assign.
   destruct a as [|x a].
-  { exists []. repeat split; try apply wf_nil. }
+  { exists []. split; [reflexivity|]. split; [apply wf_nil|reflexivity]. }
   destruct b as [|c [|y b]].
   - exists []. split; [reflexivity|]. split; [apply wf_nil|]. rewrite pmul_nil_r. reflexivity.
   - eexists. split; [reflexivity|].
@@ -527,6 +530,14 @@ Theorem gf_sqr_spec p a : 0 < p -> wf p a -> computes p (gf_sqr p a) (pmul a a).
 Proof. intros. apply gf_mul_spec; auto. Qed.
 
 (* ---------- shifts ---------- *)
+Lemma last_app {A} (a b : list A) d : b <> [] -> last (a ++ b) d = last b d.
+Proof.
+  intros Hb. induction a as [|x a IH]; [reflexivity|].
+  cbn [app]. destruct (a ++ b) eqn:E.
+  - destruct a; cbn in E; [congruence|discriminate].
+  - exact IH.
+Qed.
+
 Theorem gf_lshift_spec p a n : 0 < p -> wf p a ->
   wf p (gf_lshift p a n) /\ peqm p (gf_lshift p a n) (pshift n a).
 Proof.
@@ -598,35 +609,17 @@ Proof.
 Qed.
 
 (* ---------- evaluation ---------- *)
-Lemma gf_eval_mod p a x : 0 < p -> gf_eval p a x mod p = peval a x mod p.
+Theorem gf_eval_spec p a x : 0 < p -> gf_eval p a x = peval a x mod p.
 Proof.
   intros Hp. induction a as [|c a IH]; [reflexivity|].
   cbn [gf_eval fold_right peval]. fold (gf_eval p a x). fold (peval a x).
-  rewrite Z.rem_mod_eq_0 || idtac.
-  assert (R : forall u, Z.rem u p mod p = u mod p).
-  { intros u. pose proof (Z.rem_mod_nonneg u p) as _.
-    rewrite (Z.quot_rem' u p) at 2.
-    rewrite Z.add_comm, Z.mul_comm, Z.mod_add by lia. reflexivity. }
-  rewrite R. rewrite Z.add_comm. rewrite Z.add_mod by lia.
-  rewrite (Z.mul_comm _ x), <- Z.mul_mod_idemp_r by lia. rewrite IH.
-  rewrite Z.mul_mod_idemp_r by lia. rewrite <- Z.add_mod by lia. reflexivity.
+  rewrite IH. rewrite Z.add_comm. rewrite (Z.mul_comm _ x).
+  rewrite Z.add_mod by lia. rewrite Z.mul_mod_idemp_r by lia. rewrite <- Z.add_mod by lia.
+  reflexivity.
 Qed.
 
-Lemma gf_eval_range p a x : 0 < p -> 0 <= x -> reduced p a -> 0 <= gf_eval p a x < p.
-Proof.
-  intros Hp Hx. induction a as [|c a IH]; intros H; [cbn; lia|].
-  apply reduced_cons in H. destruct H as [Hc Ha]. specialize (IH Ha).
-  cbn [gf_eval fold_right]. fold (gf_eval p a x).
-  assert (0 <= gf_eval p a x * x + c) by nia.
-  rewrite Z.rem_mod_nonneg by lia. apply Z.mod_pos_bound; lia.
-Qed.
-
-Theorem gf_eval_guarded p a x : 0 < p -> reduced p a -> guard_eval x = true ->
-  gf_eval p a x = peval a x mod p.
-Proof.
-  intros Hp Ha G. unfold guard_eval in G. apply Z.leb_le in G.
-  rewrite <- gf_eval_mod by auto. symmetry. apply Z.mod_small. apply gf_eval_range; auto.
-Qed.
+Lemma gf_eval_range p a x : 0 < p -> 0 <= gf_eval p a x < p.
+Proof. intros Hp. rewrite gf_eval_spec by auto. apply Z.mod_pos_bound; auto. Qed.
 
 (* ---------- monic ---------- *)
 Lemma map_inv_reduced p inv a : 0 < p -> reduced p (map (fun x => (inv * x) mod p) a).
